@@ -1,7 +1,7 @@
 From Coq Require Import List NArith Bool.
 From V.gen Require Consts PeerIdSites.
 From V.common Require Import Varint Protobuf Sha256.
-From V.C18 Require Import Model Proofs KeyProofs Addr.
+From V.C18 Require Import Model Proofs KeyProofs Addr AddrProofs.
 From V.C19 Require Import Formats.
 Import ListNotations.
 Open Scope N_scope.
@@ -225,3 +225,10 @@ Check (C18_derived_roundtrip :
     of_bytes (to_bytes (derive sha256 enc)) = Some (derive sha256 enc) /\
     of_text (to_text (derive sha256 enc)) = Some (derive sha256 enc) /\
     of_component (to_component (derive sha256 enc)) = Some (derive sha256 enc)).
+Check (C18_text_noncanonical_length :
+  forall t p, of_text t = Some p -> to_text p <> t ->
+    exists b, b58_decode t = Some b /\
+      (length b = length (to_bytes p) + 9 \/ length b = length (to_bytes p) + 18)%nat).
+Check (C18_component_noncanonical_length :
+  forall b p, of_component b = Some p -> to_component p <> b ->
+    exists e, (length b = length (to_component p) + e)%nat /\ In e [3; 9; 12; 18; 21; 27; 30]%nat).
